@@ -326,6 +326,57 @@ pub fn run_case<F: Fl>(c: &LCase) -> Result<LRun, (String, String)> {
     Ok(LRun { callbacks: count.get(), fired: fired.get() })
 }
 
+/// What a program running the loop observes, as plain data: the edges handed
+/// to the loop body / closure, the result of the traversal and the adjacency
+/// afterwards. Used by the lock-step comparison of the plain and sync
+/// flavours (C15); no oracle is applied here.
+pub fn run_trace<F: Fl>(c: &LCase) -> String {
+    let vals: Vec<i8> = (0..c.n).map(|k| default_val(k as K)).collect();
+    let w = build_world::<F>(&vals, &c.conns);
+    let adds = c.script.iter().filter(|(_, o)| o.adds_edge()).count();
+    let budget = 4 * (c.conns.len() + adds) + 8;
+    let count = Cell::new(0usize);
+    let trace: RefCell<Vec<Arc3>> = RefCell::new(Vec::new());
+    let body = |e: &F::Edge| -> bool {
+        let step = count.get();
+        if step >= budget {
+            panic!("{}", BUDGET_MARK);
+        }
+        count.set(step + 1);
+        trace.borrow_mut().push(F::edge_accessors(e));
+        for (i, o) in &c.script {
+            if *i == step || *i == EVERY {
+                run_sop::<F>(&w, o);
+            }
+        }
+        true
+    };
+    let r = guarded(|| match c.lk {
+        LoopKind::EdgeLoop(which) => {
+            let mut b = |e: &F::Edge| {
+                body(e);
+            };
+            F::edge_loop(&w.nodes[c.root as usize], which, budget + 1, &mut b);
+            String::new()
+        }
+        LoopKind::Traversal(cfg) => {
+            let mut b = body;
+            let (res, _) = F::search(&w.nodes[c.root as usize], &cfg, &mut b);
+            format!("{:?}", res)
+        }
+    });
+    match r {
+        Ok(res) => {
+            let fin = guarded(|| w.observe_raw().iter().map(|n| (n.out.clone(), n.inn.clone())).collect::<Vec<_>>());
+            match fin {
+                Ok(f) => format!("handed {:?}; result {}; adjacency afterwards {:?}", trace.borrow(), res, f),
+                Err(_) => "<did not return>".to_string(),
+            }
+        }
+        Err(_) => "<did not return>".to_string(),
+    }
+}
+
 /// Container-owned mode: every node is owned by a `Graph` container (the
 /// program keeps only a handle of the loop's root); at callback step `step`
 /// the closure isolates node `victim` and removes it from the container, which
